@@ -58,7 +58,7 @@ def k18_shape(pp, model):
 
 def compare(root, pp, cfg, api, out, armed, stream='walk'):
     # cfg 'variant': equivalent spellings (bit 8: every literal dot written `\\.`, so a `..` segment is no longer plain text for the crawler)
-    text = A.render_path(pp, variant=cfg.get('variant', 0))
+    text = A.render_path(pp, True, sep='\\/' if cfg.get('escsep') else '/', variant=cfg.get('variant', 0))
     fl = FC.cfg_flags(cfg)
     model = T.Model(root)
     case = {'tree': None, 'ast': A.to_json(pp), 'pattern': text, 'cfg': cfg, 'api': api, 'stream': stream}
@@ -146,6 +146,10 @@ def run_walk(desc):
         if (len(A.render_path(pp)) + api) % 4 == 0:
             cfg = dict(cfg, variant=8 + (len(spec) % 2) * 3)
             out.stats['alternative_spellings'] += 1
+        elif (len(A.render_path(pp)) + api) % 4 == 1 and len(pp.segs) > 1:
+            # every separator written escaped: the crawler splits there all the same
+            cfg = dict(cfg, escsep=True)
+            out.stats['escaped_separators'] += 1
         with FC.built_tree(spec, follow_safe=follow) as (root, removed):
             out.stats['cases'] += 1
             out.stats['links_removed_for_follow'] += removed
@@ -183,7 +187,7 @@ def run_literal(desc):
         if True:
             variants = list(FC.literal_variants(entries))
             for segs in variants:
-                for cfg in ({}, {'icase': True}, {'icase': True, 'globstar': True}, {'globstar': True, 'dot': True}, {'icase': True, 'mark': True}, {'icase': True, 'case': True}):
+                for cfg in ({}, {'icase': True}, {'icase': True, 'globstar': True}, {'globstar': True, 'dot': True}, {'icase': True, 'mark': True}, {'icase': True, 'case': True}, {'globstar': True, 'escsep': True}):
                     for trail in (False, True) if len(segs) <= 2 else (False,):
                         key = (segs, tuple(sorted(cfg)), trail)
                         if key in seen:
